@@ -111,6 +111,15 @@ def domain_of(run, v):
                 return Domain(n, lambda i: TupleV([ArmV(T.aat(run.deref(ref).keys, i)),
                                                    _entry_val(run, ref, T.aat(run.deref(ref).keys, i))]),
                               arm_seq=o.keys)
+    if isinstance(v, Lazy) and v.kind in ('imap.items', 'imap.values'):
+        ref = v.payload
+        n = run.deref(ref).n
+        if v.kind == 'imap.items':
+            d = Domain(n, lambda i: TupleV([Num(i), MatV(run.deref(ref).vals[i])]))
+        else:
+            d = Domain(n, lambda i: MatV(run.deref(ref).vals[i]))
+        d.range_lo = z3.IntVal(0)
+        return d
     if isinstance(v, Lazy) and v.kind == 'setof':
         sv = lib.as_seq(run, v.payload) if v.payload is not None else None
         if sv is not None and sv.kind == 'A':
@@ -152,7 +161,8 @@ def exec_for(run, s):
         except ContinueSignal:
             pass
         return None
-    summarise(run, dom, body, where='line %d' % s.lineno, target=s.target.id if isinstance(s.target, ast.Name) else None)
+    summarise(run, dom, body, where='line %d' % s.lineno, target=s.target.id if isinstance(s.target, ast.Name) else
+              tuple(e.id for e in s.target.elts) if isinstance(s.target, ast.Tuple) and all(isinstance(e, ast.Name) for e in s.target.elts) else None)
 
 
 def _written_delta(st0, st1):
@@ -204,7 +214,7 @@ def summarise(run, dom, body, where='', collect=False, parallel=None, target=Non
             for kind, payload, st1, pctx, env1 in ends:
                 o1 = st1.heap[loc]
                 if isinstance(o1, SeqO):
-                    st0.heap[loc] = SeqO(o1.skind, {'R': T.rempty, 'A': T.aempty}[o1.skind])
+                    st0.heap[loc] = SeqO(o1.skind, {'R': T.rempty, 'A': T.aempty, 'I': F('iempty', ISeq)()}[o1.skind])
                     retyped = True
                     break
                 if isinstance(o1, SymListO):
@@ -388,6 +398,14 @@ def summarise(run, dom, body, where='', collect=False, parallel=None, target=Non
             if target is None:
                 return env_
             e2 = dict(env_)
+            if isinstance(target, tuple):       # for k, v in d.items(): bind the components
+                el = dom.elem(idx)
+                items = getattr(el, 'items', None)
+                if not isinstance(items, (list, tuple)) or len(items) != len(target):
+                    return env_
+                for nm_, it_ in zip(target, items):
+                    e2[nm_] = it_
+                return e2
             e2[target] = dom.elem(idx)
             return e2
         if inv is not None:
